@@ -392,6 +392,13 @@ func orAlternatives(t *rapid.T, n *model.Node, o ScalarOpts, label string) []mod
 			}
 		}
 	}
+	// the order inside a rule-set is the writer's: `type` need not come first
+	for i := range alts {
+		if rs := alts[i].Rules; alts[i].K == "set" && len(rs) >= 2 && rapid.Bool().Draw(t, fmt.Sprintf("%srot%d", label, i)) {
+			k := rapid.IntRange(1, len(rs)-1).Draw(t, fmt.Sprintf("%srotk%d", label, i))
+			alts[i].Rules = append(append([]model.Rule{}, rs[k:]...), rs[:k]...)
+		}
+	}
 	// (the same name twice used to be refused with 1303 - a false recursion alarm, repaired; one case in
 	// eight keeps the duplicates so that the repair stays covered)
 	if rapid.IntRange(0, 7).Draw(t, label+"keepdups") == 0 {
@@ -462,7 +469,8 @@ func Tree(t *rapid.T, o TreeOpts, depth int, label string) *model.Node {
 			n.AddShortcut(o.KeyType, Tree(t, o, depth-1, label+".ks"))
 		}
 		if rapid.IntRange(0, 3).Draw(t, label+"ap") == 0 {
-			n.Rules = append(n.Rules, model.R("additionalProperties", rapid.SampledFrom([]model.Val{model.Bool(true), model.Bool(false), model.Str("any"), model.Str("string"), model.Str("integer"), model.Str("float"), model.Str("boolean"), model.Str("null"), model.Str("array"), model.Str("object"), model.Str("email"), model.Str("date")}).Draw(t, label+"apv")))
+			n.Rules = append(n.Rules, model.R("additionalProperties", rapid.SampledFrom([]model.Val{model.Bool(true), model.Bool(false), model.Str("any"), model.Str("string"), model.Str("integer"), model.Str("float"), model.Str("boolean"), model.Str("null"), model.Str("array"), model.Str("object"), model.Str("email"), model.Str("date"),
+				model.Str("decimal"), model.Str("datetime"), model.Str("uri"), model.Str("uuid"), model.Str("enum"), model.Str("mixed")}).Draw(t, label+"apv")))
 		}
 		return n
 	case c == 1:
@@ -501,7 +509,11 @@ func Tree(t *rapid.T, o TreeOpts, depth int, label string) *model.Node {
 		return model.Ref(rapid.SampledFrom(o.RefTypes).Draw(t, label+"ref"))
 	case c == 3 && len(o.RefTypes) > 1:
 		nms := rapid.SliceOfNDistinct(rapid.SampledFrom(o.RefTypes), 2, 3, func(s string) string { return s }).Draw(t, label+"refs")
-		return model.Choice(nms...)
+		n := model.Choice(nms...)
+		if rapid.IntRange(0, 4).Draw(t, label+"mixed") == 0 {
+			n.Rules = append(n.Rules, model.R("type", model.Str("mixed"))) // what a choice is anyway, written out
+		}
+		return n
 	}
 	return Scalar(t, o.Scalar, label)
 }
